@@ -173,3 +173,57 @@ package paymentsdb
 //@   props C16
 //@   ensures result <==> ret(updatable) != nil
 //@   site call updatable: assert arg(0) == m.Status
+//@
+//@ // ---- the stored failure reason reaches the status function unchanged, in both backends
+//@ func buildPaymentFromBatchData
+//@   props C16
+//@   loop * havoc
+//@   site call SetState: assert (payment.FailReason.Valid <==> arg(0).FailureReason != nil) &&
+//@        (payment.FailReason.Valid ==> *arg(0).FailureReason == wrap(payment.FailReason.Int32, 8)) &&
+//@        payment == ret(GetPayment)
+//@
+//@ func fetchPayment
+//@   props C16
+//@   loop * havoc
+//@   site call setState: assert (ret(Get, 1) != nil <==> arg(0).FailureReason != nil) &&
+//@        (ret(Get, 1) != nil ==> *arg(0).FailureReason == ret(Get, 1)[0])
+//@   site call Get nth 1: assert arg(key) == paymentFailInfoKey && arg(0) == bucket
+//@
+//@ func fetchPaymentStatus
+//@   props C16
+//@   ensures result1 == nil ==> retn(fetchPayment, 1) == nil && result0 == retn(fetchPayment, 0).Status
+//@   site call fetchPayment: assert arg(bucket) == bucket
+//@
+//@ // ---- deletions: only removable payments, and with failedOnly only failed ones, in both backends
+//@ func (p *KVStore) DeletePayments$1$1
+//@   props C16
+//@   loop * havoc
+//@   site call removable: assert arg(ps) == retn(fetchPaymentStatus, 0) && retn(fetchPaymentStatus, 1) == nil
+//@   site call fetchFailedHtlcKeys: assert ret(removable) == nil && (failedOnly ==> retn(fetchPaymentStatus, 0) == StatusFailed)
+//@   site call fetchSequenceNumbers: assert ret(removable) == nil && (failedOnly ==> retn(fetchPaymentStatus, 0) == StatusFailed)
+//@   site call append nth 0: assert ret(removable) == nil && (failedOnly ==> retn(fetchPaymentStatus, 0) == StatusFailed) && !failedHtlcsOnly
+//@
+//@ func (s *SQLStore) DeletePayments$2$3
+//@   props C16
+//@   loop * havoc
+//@   site call computePaymentStatusFromResolutions: assert arg(failReason) == dbPayment.Payment.FailReason
+//@   site call removable: assert arg(ps) == retn(computePaymentStatusFromResolutions, 0) && retn(computePaymentStatusFromResolutions, 1) == nil
+//@   site call DeleteFailedAttempts: assert ret(removable) == nil && failedHtlcsOnly &&
+//@        (failedOnly ==> retn(computePaymentStatusFromResolutions, 0) == StatusFailed) && arg(2) == dbPayment.Payment.ID
+//@   site call DeletePayment: assert ret(removable) == nil && !failedHtlcsOnly &&
+//@        (failedOnly ==> retn(computePaymentStatusFromResolutions, 0) == StatusFailed) && arg(2) == dbPayment.Payment.ID
+//@
+//@ func (p *KVStore) DeletePayment$1
+//@   props C16
+//@   loop * havoc
+//@   site call removable: assert arg(ps) == retn(fetchPaymentStatus, 0) && retn(fetchPaymentStatus, 1) == nil
+//@   site call fetchFailedHtlcKeys: assert ret(removable) == nil
+//@   site call fetchSequenceNumbers: assert ret(removable) == nil
+//@   site call DeleteNestedBucket: assert ret(removable) == nil && !failedHtlcsOnly
+//@
+//@ func (s *SQLStore) DeletePayment$1
+//@   props C16
+//@   loop * havoc
+//@   site call removable: assert arg(ps) == retn(computePaymentStatusFromDB, 0) && retn(computePaymentStatusFromDB, 1) == nil
+//@   site call DeleteFailedAttempts: assert ret(removable) == nil && failedHtlcsOnly
+//@   site call DeletePayment: assert ret(removable) == nil && !failedHtlcsOnly
